@@ -6,18 +6,18 @@
 (***************************************************************************)
 EXTENDS DateTime, TLC, Json
 CONSTANTS R, EmitVec
-VARIABLES k, dl
-vars == <<k, dl>>
+VARIABLES vK, vDl
+vars == <<vK, vDl>>
 WMinI128 == <<1, 728, 105, 884, 715, 303, 687, 731, 231, 469, 460, 183, 141, 170>>
 WMaxI128 == <<0, 727, 105, 884, 715, 303, 687, 731, 231, 469, 460, 183, 141, 170>>
 Anchors == <<WInt(0), WShl3(WInt(1)), WShl3(WInt(-1)), WShl3(WInt(2)), WShl3(WInt(-2)), WShl3(WInt(3)), WShl3(WInt(-3)),
              WShl3(WMinI64), WShl3(WAddInt(WMinI64, -1)), WShl3(WMaxI64), WShl3(WAddInt(WMaxI64, 1)),
              WShl3(MinTW), WAddInt(WShl3(MaxTW), 999999999), WAddInt(WMinI128, R), WAddInt(WMaxI128, -R),
              WShl3(WInt(951868800)), WShl3(WInt(-86400))>>
-Init == k \in 1..Len(Anchors) /\ dl = -R
-Next == dl < R /\ dl' = dl + 1 /\ k' = k
+Init == vK \in 1..Len(Anchors) /\ vDl = -R
+Next == vDl < R /\ vDl' = vDl + 1 /\ vK' = vK
 Spec == Init /\ [][Next]_vars
-N == WAddInt(Anchors[k], dl)
+N == WAddInt(Anchors[vK], vDl)
 NanosOK ==
   LET sp == Split(N) IN
   /\ IsWide(N) /\ IsWide(sp.q)
@@ -25,7 +25,7 @@ NanosOK ==
   /\ Join(sp.q, sp.r) = N                                         \* recombining gives back the original count
   /\ Split(Join(sp.q, (sp.r + 1) % 1000000000)) = [q |-> sp.q, r |-> (sp.r + 1) % 1000000000]
   /\ WLe(WShl3(sp.q), N) /\ WLt(N, WShl3(WAddInt(sp.q, 1)))       \* floor: q*10^9 <= N < (q+1)*10^9
-  /\ (dl > -R => LET pr == Split(WAddInt(N, -1)) IN              \* monotone, one step at a time
+  /\ (vDl > -R => LET pr == Split(WAddInt(N, -1)) IN              \* monotone, one step at a time
         \/ (pr.q = sp.q /\ pr.r + 1 = sp.r) \/ (sp.r = 0 /\ pr.r = 999999999 /\ WAddInt(pr.q, 1) = sp.q))
 Out2Vec(out) == {[ok |-> v] : v \in out.ok} \cup {[err |-> e] : e \in out.err}
 Expect(via, ty) ==
@@ -37,6 +37,6 @@ Ty2 == [off |-> -2147483647, dst |-> 0, des |-> <<>>]
 Emit == EmitVec =>
   /\ PrintT(<<"VEC", ToJson([op |-> "fromnanos", a |-> [N |-> N, via |-> "utc", type |-> Ty1], x |-> Out2Vec(Expect("utc", Ty1))])>>)
   /\ PrintT(<<"VEC", ToJson([op |-> "fromnanos", a |-> [N |-> N, via |-> "local", type |-> Ty1], x |-> Out2Vec(Expect("local", Ty1))])>>)
-  /\ (dl % 16 = 0 => PrintT(<<"VEC", ToJson([op |-> "fromnanos", a |-> [N |-> N, via |-> "local", type |-> Ty2], x |-> Out2Vec(Expect("local", Ty2))])>>))
+  /\ (vDl % 16 = 0 => PrintT(<<"VEC", ToJson([op |-> "fromnanos", a |-> [N |-> N, via |-> "local", type |-> Ty2], x |-> Out2Vec(Expect("local", Ty2))])>>))
 Inv == NanosOK /\ Emit
 =============================================================================
